@@ -351,6 +351,30 @@ class ProofMachine(QueryMachine):
         super().__init__(scratch, case)
         self.proof_in_window = 0
 
+    def before_start(self, loop):
+        '''The daemon reorganises while the server is still starting up: the read behind the
+        initial population of the header merkle cache (the first header read of the process) is
+        delivered late, and the fork is introduced the moment that read is executed.'''
+        sf = self.case.get('start_fork') or 0
+        if not sf:
+            return
+        machine = self
+        loop.slow_jobs.append(['read_headers', 1, 0.0, [8.0, 14.0][sf - 1]])
+        prev = loop.on_job_run
+        fired = []
+
+        def on_job(job):
+            if prev is not None:
+                prev(job)
+            if not fired and job.name == 'read_headers':
+                fired.append(1)
+                loop.on_job_run = prev
+                machine.info['classes'].add('reorg_during_start_up_population')
+                asyncio.ensure_future(machine.apply(
+                    ['fork', 1, [{'cb': [[2, 2]], 'nonce': 13, 'coll': None, 'txs': [], 'mp': []}]],
+                    loop))
+        loop.on_job_run = on_job
+
     def candidate_chains(self):
         tips = [b for b in self.world.blocks.values()]
         return [self.world.chain(t) for t in tips]
@@ -640,7 +664,8 @@ def body_dynamic(ctx):
         classes = info['classes']
         ctx.record(case=case, nontrivial=bool(classes & {'proof_request_across_backup',
                                                          'extension_read_in_flight_before_reorg',
-                                                         'header_read_in_flight_across_reorg'}),
+                                                         'header_read_in_flight_across_reorg',
+                                                         'reorg_during_start_up_population'}),
                    classes=sorted(classes) + ['dynamic'],
                    sample={'check': 'c11.dynamic', 'ops': case['ops'][:10], 'tape': case['tape'][:20]})
         ctx.extra['proofs_verified'] = ctx.extra.get('proofs_verified', 0) + info['checked_queries']
